@@ -664,3 +664,6 @@ func Replay(id, tier string, v Violation) int {
 	fmt.Fprintln(os.Stderr, "no replayer for", id, "configuration", v.Conf)
 	return 2
 }
+
+// DiffLines is diffLines for the check packages.
+func DiffLines(a, b string) string { return diffLines(a, b) }
